@@ -34,6 +34,7 @@ inductive Conn where
   | bundle (n : String)
   | bref (root : String) (path : List String)
   | anon (fields : List (String × Conn))
+  | orphan (w : Nat)                            -- a Signal owned by another module, or by none
   deriving Repr, Inhabited
 
 inductive Target where
@@ -59,6 +60,8 @@ structure Module where
   sigs : List (String × Nat × Bool)            -- name, width, is-port
   bundles : List (String × String × Bool)      -- name, bundle definition, is-port
   insts : List Inst
+  label : Option String := none                -- the hdl21 `Module.name` when it differs from `name` (none = unnamed)
+  labelled : Bool := false
   deriving Repr, Inhabited
 
 structure Design where
@@ -107,6 +110,26 @@ def Ctx.direct (c : Ctx) (node : String × String) : Option Conn :=
 def Ctx.nodes (c : Ctx) : List (String × String) :=
   c.m.insts.flatMap (fun i => i.conns.flatMap (fun (p, cn) =>
     (i.name, p) :: (match cn with | .pref j q => [(j, q)] | _ => [])))
+
+mutual
+/-- Does the connectable mention the port reference `x` anywhere (also inside slices, concatenations, anonymous bundles)? -/
+def mentions (x : String × String) : Conn → Bool
+  | .pref j q => (j, q) == x
+  | .slice p _ => mentions x p
+  | .concat ps => mentionsList x ps
+  | .anon fields => mentionsFields x fields
+  | _ => false
+def mentionsList (x : String × String) : List Conn → Bool
+  | [] => false
+  | p :: ps => mentions x p || mentionsList x ps
+def mentionsFields (x : String × String) : List (String × Conn) → Bool
+  | [] => false
+  | (_, p) :: ps => mentions x p || mentionsFields x ps
+end
+
+/-- A port is referenced if any connection of the module mentions it. -/
+def Ctx.referenced (c : Ctx) (x : String × String) : Bool :=
+  c.m.insts.any (fun i => i.conns.any (fun p => mentions x p.2))
 
 def Ctx.neighbours (c : Ctx) (x : String × String) : List (String × String) :=
   (match c.direct x with | some (.pref j q) => [(j, q)] | _ => []) ++
@@ -179,6 +202,7 @@ def bitsOf (c : Ctx) : Nat → Conn → List String → R (List Atom)
         | some x => bitsOf c fuel x.2 rest
         | none => throw s!"anonymous bundle has no member {f}"
     | .noconn => throw "no-connect inside an expression"
+    | .orphan _ => throw "signal owned by another module or by none"
     | .pref j q => do
       let comp := c.component (j, q)
       let srcs := comp.filterMap (fun y => match c.direct y with
@@ -222,7 +246,7 @@ def elementBits (c : Ctx) (i : Inst) (port : String) (path : List String) (w : N
     (elem : Option (Nat ⊕ String)) : R (List Atom) := do
   let direct := (i.conns.find? (fun p => p.1 == port)).map (·.2)
   -- a port that is neither connected nor referenced by anything is unconnected
-  if direct.isNone && (c.component (i.name, port)).length ≤ 1 then
+  if direct.isNone && !(c.referenced (i.name, port)) then
     throw s!"{c.m.name}.{i.name}: port {port} unconnected"
   let whole ← match elem, direct with
     | _, some .noconn =>
@@ -298,20 +322,30 @@ def reachable (d : Design) (top : String) : List String :=
     Only the modules below `top` are part of the design that is being exported. -/
 def semSrc (d : Design) (top : String) : R (List (List String)) := do
   let used := reachable d top
-  let mods ← (d.modules.filter (fun m => used.contains m.name)).mapM (toFMod d)
+  let usedMods := d.modules.filter (fun m => used.contains m.name)
+  -- exported module names: unnamed or clashing modules cannot be serialised
+  let labels := usedMods.map (fun m => if m.labelled then m.label else some m.name)
+  if labels.any (·.isNone) then throw "unnamed module"
+  if (labels.filterMap id).eraseDups.length ≠ labels.length then throw "two modules share one name"
+  let mods ← usedMods.mapM (toFMod d)
   partition mods top
 
-/-- Leaf devices below `top`: (instance path, kind, parameters). -/
-partial def devices (d : Design) (top : String) (pre : List String) : List (String × String × List (String × String)) :=
-  match d.modules.find? (fun m => m.name == top) with
-  | none => []
-  | some m => m.insts.flatMap (fun i =>
-    let elems : List String := match i.kind with
-      | .single => [i.name]
-      | .array n => (List.range n).map (fun k => i.name ++ "_" ++ toString k)
-      | .pair ms => ms.map (fun mem => i.name ++ "_" ++ mem)
-    elems.flatMap (fun e => match i.target with
-      | .leaf kind _ params => [("/".intercalate (pre ++ [e]), kind, params)]
-      | .module n => devices d n (pre ++ [e])))
+/-- Leaf devices below `top`: (instance path, kind, parameters). Depth-bounded (no recursion on ill-formed cycles). -/
+def devicesAux (d : Design) : Nat → String → List String → List (String × String × List (String × String))
+  | 0, _, _ => []
+  | fuel + 1, top, pre =>
+    match d.modules.find? (fun m => m.name == top) with
+    | none => []
+    | some m => m.insts.flatMap (fun i =>
+      let elems : List String := match i.kind with
+        | .single => [i.name]
+        | .array n => (List.range n).map (fun k => i.name ++ "_" ++ toString k)
+        | .pair ms => ms.map (fun mem => i.name ++ "_" ++ mem)
+      elems.flatMap (fun e => match i.target with
+        | .leaf kind _ params => [("/".intercalate (pre ++ [e]), kind, params)]
+        | .module n => devicesAux d fuel n (pre ++ [e])))
+
+def devices (d : Design) (top : String) (pre : List String) : List (String × String × List (String × String)) :=
+  devicesAux d (d.modules.length + 1) top pre
 
 end Hdl21.Design
